@@ -392,9 +392,15 @@ def side_check_parents(ctx, mon, model, parents_pg, prog, site, op):
     tol = mon.tol(pm.shape[0], 0.0)
     closed = not (numpy.any((pc == 0) & (qc != 0)) or numpy.any((pc == Np) & (qc != Nq)))
     if closed:   # otherwise the same event was just reported under C10.lost
-        mon.chk("C10.bracket", bool(numpy.all(gq.max(0) <= usl + tol)), (site, SUBSET_ICLS), "usl of an ancestor population >= GEBV of every descendant",
+        # key: a limit that is off the reference of the named parents points at the model, a correct one at the mating step
+        ru, rl = O.tight_reference(mon.u, pc > 0, pc == Np, pm.shape[0])
+        su = (site, SUBSET_ICLS) if usl.shape == ru.shape and numpy.all(numpy.abs(usl - ru) <= tol) else \
+            ("%s.usl_numpy" % O.defining_class(model, "usl_numpy"), "any input form" + mon.mkind)
+        sl = (site, SUBSET_ICLS) if lsl.shape == rl.shape and numpy.all(numpy.abs(lsl - rl) <= tol) else \
+            ("%s.lsl_numpy" % O.defining_class(model, "lsl_numpy"), "any input form" + mon.mkind)
+        mon.chk("C10.bracket", bool(numpy.all(gq.max(0) <= usl + tol)), su, "usl of an ancestor population >= GEBV of every descendant",
                 witness=w(usl=usl, gebv_max=gq.max(0), tol=tol))
-        mon.chk("C10.bracket", bool(numpy.all(gq.min(0) >= lsl - tol)), (site, SUBSET_ICLS), "lsl of an ancestor population <= GEBV of every descendant",
+        mon.chk("C10.bracket", bool(numpy.all(gq.min(0) >= lsl - tol)), sl, "lsl of an ancestor population <= GEBV of every descendant",
                 witness=w(lsl=lsl, gebv_min=gq.min(0), tol=tol))
 
 
